@@ -15,6 +15,7 @@ oracle : on the implementation alone (no model): across `set T op= E` (E without
          (when the caller's own expressions match nothing) re.group.N are unchanged.
 """
 import os
+import re
 import vcommon as V
 import store_util as U
 from gen import storegen as G
@@ -100,6 +101,8 @@ def compare(prog, it, mt):
             return "norm"
         if st.startswith("state-"):
             n = st[6:].lower()
+            if n in ("restart", "error"):
+                return "state100" if n == "restart" else "state101"
             return "state%d" % G.STATES.index(n) if n in G.STATES else "bare"
         return st
     if mt["status"] in ("crash", "fuel"):
@@ -149,10 +152,94 @@ def stmt_exprs(s):
         return [s[1]]
     if k == "rawstmt":
         return [("raw", "", s[2])]
+    if k == "add":
+        return [s[2]]
+    if k == "error":
+        return [e for e in s[1:3] if e is not None]
     if k == "switch":
         # the control expression, and a case written `case ~ "re"` is a match of this frame
         return [s[1]] + [("match", False, ("lit", None, ""), t[1]) for t, _, _ in s[3] if t is not None and t[0] == "re"]
     return []
+
+
+_EFFECTS = None
+# ctx fields a built-in may write (Gen/StoreEffects.v) -> the pool name that shows them
+EFFECT_CELL = {"FastlyError": "@fastly.error", "RequestWorkspaceBytes": "@workspace"}
+STMT_KIND = {"set": "Set", "add": "Add", "unset": "Unset", "decl": "Declare", "log": "Log", "if": "If", "call": "Call",
+             "ret": "Return", "switch": "Switch", "error": "Error"}
+OBJ_FIELD = {"req": "Request.Header", "bereq": "BackendRequest.Header", "beresp": "BackendResponse.Header",
+             "resp": "Response.Header", "obj": "Object.Header"}
+
+
+def builtin_effects():
+    """name -> set of ctx paths, from the table the translator reads off interpreter/function/builtin"""
+    global _EFFECTS
+    if _EFFECTS is None:
+        txt = open(os.path.join(V.COQ, "Gen", "StoreEffects.v")).read()
+        body = txt[txt.index("Definition builtin_effects"):txt.index("Definition builtin_ctx_free")]
+        _EFFECTS = {m.group(1): set(re.findall(r'"([^"]*)"', m.group(2)))
+                    for m in re.finditer(r'\("([^"]+)", \[([^\]]*)\]\)', body)}
+        if len(_EFFECTS) < 100:
+            raise V.BuildError("Gen/StoreEffects.v: built-in effect table not readable")
+    return _EFFECTS
+
+
+_TABLES = {}
+
+
+def effect_table(name):
+    """statement_effects / operator_effects of Gen/StoreEffects.v as a dict"""
+    if name not in _TABLES:
+        txt = open(os.path.join(V.COQ, "Gen", "StoreEffects.v")).read()
+        body = txt[txt.index("Definition " + name):]
+        body = body[:body.index("].") + 2]
+        _TABLES[name] = {m.group(1): set(re.findall(r'"([^"]*)"', m.group(2)))
+                         for m in re.finditer(r'\("([^"]+)", \[([^\]]*)\]\)', body)}
+    return _TABLES[name]
+
+
+def model_implicit():
+    if "model" not in _TABLES:
+        txt = open(os.path.join(V.COQ, "Model", "StoreBuiltinNames.v")).read()
+        out = {}
+        for k in ("error", "match", "set"):
+            m = re.search(r"Definition %s_implicit : list string := \[([^\]]*)\]" % k, txt)
+            out[k] = re.findall(r'"([^"]+)"', m.group(1))
+        _TABLES["model"] = out
+    return _TABLES["model"]
+
+
+def stmt_kind(s, text):
+    if s[0] == "rawstmt":
+        w = text.split(None, 1)[0] if text.split() else ""
+        return {"set": "Set", "add": "Add", "unset": "Unset"}.get(w, "FunctionCall")
+    return STMT_KIND.get(s[0])
+
+
+def names_tie():
+    """the built-in names the generator renders are the ones Proofs/StoreEffectsTie.v reasons about"""
+    txt = open(os.path.join(V.COQ, "Model", "StoreBuiltinNames.v")).read()
+    m = re.search(r"std_builtin_names : list string := \[([^\]]*)\]", txt)
+    coq = re.findall(r'"([^"]+)"', m.group(1)) if m else None
+    mine = [G.BUILTINS[k][0] for k in sorted(G.BUILTINS)]
+    return coq == mine, "generator %s / Model/StoreBuiltinNames.v %s" % (mine, coq)
+
+
+def line_effects(text):
+    """ctx paths the built-ins named on this source line may write"""
+    fx = builtin_effects()
+    out = set()
+    for m in re.finditer(r"([a-z][a-z0-9_.]*)\(", text):
+        out |= fx.get(m.group(1), set())
+    return out
+
+
+def unobserved_effects(text, target):
+    """effects of the line's built-ins that no pool name shows: such a statement must not be generated.
+    Header maps are shown header by header (a header other than the target that changes is reported as
+    such); the cells of EFFECT_CELL are shown through the harness."""
+    return [p for p in line_effects(text)
+            if p not in EFFECT_CELL and (p[:-2] if p.endswith(".*") else p) not in OBJ_FIELD.values()]
 
 
 def oracle(prog, it, linemap):
@@ -181,11 +268,27 @@ def oracle(prog, it, linemap):
         exprs = stmt_exprs(s)
         calls = s[0] == "call" or any(G.expr_has(e, ("call",)) for e in exprs)
         matches = any(G.expr_has(e, ("match",)) for e in exprs)
-        target = prog.name_text(s[1]) if s[0] in ("set", "unset") else ("var.v%d" % s[1] if s[0] == "decl" else None)
+        target = prog.name_text(s[1]) if s[0] in ("set", "unset", "add") else ("var.v%d" % s[1] if s[0] == "decl" else None)
+        implicit = ("@obj.status", "@obj.response", "obj.response") if s[0] == "error" else ()
         if s[0] == "rawstmt":
             target = s[2].get("target")
         derived = derived_of(target, pool)
         what = "line %d `%s`" % (a["line"], prog_line(prog, a["line"]))
+        # built-ins named on the line: their documented implicit cells (from the Go source) may change too
+        fx = line_effects(prog_line(prog, a["line"]))
+        implicit = tuple(implicit) + tuple(EFFECT_CELL[x] for x in fx if x in EFFECT_CELL)
+        # ... and what the statement kind itself writes according to statement.go / operator.go
+        kind = stmt_kind(s, prog_line(prog, a["line"]))
+        # (the MODEL's lists, Model/StoreBuiltinNames.v, which C13_error_implicit / C13_set_implicit /
+        # C13_match_implicit / C13_silent_statement_kinds tie to the source: a source that starts to write
+        # more fails those theorems AND shows here as a changed cell)
+        ml = model_implicit()
+        sfx = set(ml["error"] if kind == "Error" else ml["set"] if kind in ("Set", "Add") else ())
+        if matches or " ~ " in prog_line(prog, a["line"]) or " !~ " in prog_line(prog, a["line"]):
+            sfx |= set(ml["match"])
+        implicit += tuple(EFFECT_CELL[x] for x in sfx if x in EFFECT_CELL)
+        for path in unobserved_effects(prog_line(prog, a["line"]), target):
+            bad.append(("%s uses a built-in that may write ctx.%s, which the snapshot does not show" % (what, path), a["line"]))
         # locals of the frame: only the assigned one may change, none may vanish
         for n, v in a["locals"].items():
             if n == target:
@@ -195,7 +298,7 @@ def oracle(prog, it, linemap):
             elif U.show(b["locals"][n]) != U.show(v):
                 bad.append(("%s changed %s: %s -> %s" % (what, n, U.show(v), U.show(b["locals"][n])), a["line"]))
         for n, x, y in zip(pool, a["pool"], b["pool"]):
-            if n == target or n in derived or U.show(x) == U.show(y):
+            if n == target or n in derived or n in implicit or U.show(x) == U.show(y):
                 continue
             if n.startswith("re.group."):
                 if matches:
@@ -320,8 +423,8 @@ def run(ctx):
         "PCRE is an oracle in the theorems; when running, two pattern shapes with a direct definition",
     ]
     # ------------------------------------------------------------------ programs
-    n_core = 12000 if thorough else 380
-    n_wild = 8000 if thorough else 230
+    n_core = 12000 if thorough else 320
+    n_wild = 8000 if thorough else 190
     # a fixed share of the budget goes to the sharp dimensions (gen/storegen.py focus=True): expression
     # SHAPES (model-compared) and locals / parameters / results of EVERY type (oracle)
     g = G.StoreGen(rng)
@@ -330,6 +433,10 @@ def run(ctx):
     wgf = G.WildGen(rng, focus=True)
 
     violations_before = len(ctx.violations)
+    ctx.obligation("ctx variables of the programs drawn from Gen/StoreWritable.v (Set / Get methods of interpreter/variable)",
+                   G.WRITABLE is not None, "" if G.WRITABLE is not None else "table missing or not generated: hand-written fallback list in use")
+    ok, note = names_tie()
+    ctx.obligation("built-in names of the generator = std_builtin_names of the model (effect-free by Gen/StoreEffects.v)", ok, note)
     # ------------------------------------------------------------------ corpus first (fixed VCL programs with their own expectations)
     n_corpus = run_corpus(ctx, impl)
 
@@ -380,6 +487,12 @@ def run(ctx):
         "dimension_counts": dict(sorted(dims.items())),
         "budget_shares": {"core programs with shape focus": "1/3", "wild programs with shape + all-types focus": "1/2"},
         "generator_stats": dict(sorted(stats.items())),
+        "tables_regenerated_from_source": [
+            "Gen/StoreEffects.v: builtin_effects / builtin_ctx_free / builtin_arg_writers (interpreter/function/builtin/*.go), "
+            "statement_effects (statement.go), operator_effects / operator_ctx_free (operator/operator.go)",
+            "Gen/StoreWritable.v: writable / readable ctx variables per scope (interpreter/variable/<scope>.go Set / Get)"],
+        "ctx_variables_per_scope_drawn_from_source": {sc: len(v) for sc, v in (G.WRITABLE or {}).items() if sc in G.SCOPES},
+        "ctx_variables_assigned_into_a_field_their_getter_does_not_return": {sc: [n for n, _ in v] for sc, v in (G.WRITE_ONLY or {}).items() if sc in G.SCOPES},
     })
     return ctx.finish(
         level="proof",
